@@ -185,6 +185,10 @@ Definition call_at (n : tree) (path : string) (caps : list string) (k : call) : 
     at_pos n pi node /\ In (k_vid k) (t_values node) /\ pos_match pi path = Some vals /\
     k_keys k = t_keys node /\ k_vals k = (caps ++ vals)%list.
 
+(** the recorded answer is the matcher's answer on the recorded keys and values *)
+Definition call_res (m : nat -> list string -> list string -> mres) (k : call) : Prop :=
+  k_res k = m (k_vid k) (k_keys k) (k_vals k).
+
 Definition found_at (n : tree) (path : string) (caps : list string)
            (keys : list string) (v : nat) (params : list string) : Prop :=
   exists pi node vals,
@@ -436,4 +440,54 @@ Proof.
                  destruct b; [exact C2 | exact I].
            ++ split; [|reflexivity]. simpl. intros k Hk. apply in_app_or in Hk as [Hk|Hk]; auto.
       * split; [exact G1 | exact I].
+Qed.
+
+(** every recorded call carries the matcher's answer on what it was asked with (any variant of the tree) *)
+Lemma try_values_res m keys caps vs k :
+  In k (snd (try_values m keys caps vs)) -> call_res m k.
+Proof.
+  unfold call_res. induction vs as [|v r IH]; simpl; [tauto|].
+  destruct (m v keys caps) eqn:E.
+  - simpl. intros [<-|[]]. simpl. congruence.
+  - destruct (try_values m keys caps r) as [x cs]. simpl in *. intros [<-|H]; [simpl; congruence | auto].
+  - simpl. intros [<-|[]]. simpl. congruence.
+Qed.
+
+Lemma find_node_res fx2 fx5 m n :
+  forall path caps k, In k (snd (find_node fx2 fx5 m n path caps)) -> call_res m k.
+Proof.
+  induction n as [p st w c vs ks bt IHs IHw IHc] using tree_ind'.
+  set (n := Node p st w c vs ks bt) in *.
+  intros path caps k. destruct path as [|first rest].
+  - change (find_node fx2 fx5 m n "" caps) with (here_part fx5 m n caps). unfold here_part.
+    destruct (is_nil (t_values n)); [intros []|].
+    destruct (try_values m (t_keys n) caps (t_values n)) as [x cs] eqn:E.
+    assert (H : forall k, In k cs -> call_res m k).
+    { intros k0 Hk. apply (try_values_res m (t_keys n) caps (t_values n)). rewrite E. exact Hk. }
+    destruct x as [[v|]|]; simpl; apply H.
+  - rewrite find_node_cons.
+    assert (Hs : forall k, In k (snd (static_part fx2 fx5 m n first rest caps)) -> call_res m k).
+    { unfold static_part. destruct (find_static first (t_statics n)) as [child|] eqn:Ef; [|intros k0 []].
+      apply find_static_In in Ef. destruct (prefix (t_path child) (String first rest)); [|intros k0 []].
+      rewrite Forall_forall in IHs. intros k0. apply (IHs _ Ef). }
+    destruct (static_part fx2 fx5 m n first rest caps) as [[|[x|] caps1 b] cs1]; cbn [snd] in Hs; cbn [snd]; try apply Hs.
+    destruct b; [|cbn [snd]; apply Hs].
+    assert (Hw : forall k, In k (snd (wild_part fx2 fx5 m n (String first rest) caps1)) -> call_res m k).
+    { unfold wild_part. destruct (t_wild n) as [ww|] eqn:Ew; [|intros k0 []].
+      destruct (Nat.eqb (next_sep (String first rest)) 0); [intros k0 []|].
+      intros k0 Hk. apply (IHw ww Ew (sdrop (next_sep (String first rest)) (String first rest))
+                               (caps1 ++ [stake (next_sep (String first rest)) (String first rest)])).
+      destruct (find_node fx2 fx5 m ww _ _) as [[|[y|] cc bb] cs]; simpl in *; try exact Hk.
+      destruct bb; exact Hk. }
+    destruct (wild_part fx2 fx5 m n (String first rest) caps1) as [[r|] cs2]; cbn [snd] in Hw.
+    + cbn [snd]. intros Hk. apply in_app_or in Hk as [Hk|Hk]; auto.
+    + destruct (t_catch n) as [cc|] eqn:Ec.
+      * assert (Hc : forall k, In k (snd (catch_part fx2 m n cc (String first rest) caps1)) -> call_res m k).
+        { unfold catch_part. destruct (try_values m _ _ (t_values cc)) as [x cs] eqn:E.
+          assert (H : forall k, In k cs -> call_res m k).
+          { intros k0 Hk. eapply try_values_res. rewrite E. exact Hk. }
+          destruct x as [[v|]|]; simpl; apply H. }
+        destruct (catch_part fx2 m n cc (String first rest) caps1) as [r cs3]. cbn [snd] in Hc. cbn [snd].
+        intros Hk. apply in_app_or in Hk as [Hk|Hk]; [auto|]. apply in_app_or in Hk as [Hk|Hk]; auto.
+      * cbn [snd]. intros Hk. apply in_app_or in Hk as [Hk|Hk]; auto.
 Qed.
